@@ -775,7 +775,8 @@ class Unit:
             ens = o.fields.get('ensures')
             txt = '#[verifier::external_body]\npub fn __outl_%s%s' % (o.name, sig)
             if req:
-                txt += '\n    requires %s' % req.strip().rstrip(',') + ','
+                # named, so that a caller violating it (e.g. a changed offset: the std call would panic) is reported on `outline_requires[<name>]`
+                txt += '\n    requires /*@CL %s|outline_requires|%s|%d*/ (%s),' % (c.key, o.name, req.strip().count('\n'), req.strip().rstrip(','))
             if ens:
                 txt += '\n    ensures %s' % ens.strip().rstrip(',') + ','
             # `tail:` (multi-statement outlines): text appended after the outlined statements so that the helper returns a value
